@@ -41,6 +41,10 @@ REGISTRY = {
 
 
 def main():
+    import faulthandler
+    import signal
+    # kill -USR1 <pid> prints the Python stacks of a check (or one of its forked workers) that seems stuck
+    faulthandler.register(signal.SIGUSR1, all_threads=True)
     ap = argparse.ArgumentParser(prog='vf')
     sub = ap.add_subparsers(dest='cmd', required=True)
     c = sub.add_parser('check')
@@ -62,6 +66,20 @@ def main():
             from harness import setup
             return setup.main()
         if args.cmd == 'check':
+            # a check never hangs: past its wall-clock budget it stops with a machinery failure (exit 2, not a verdict)
+            budget = int(os.environ.get('VERIF_BUDGET_S', '2400' if args.tier == 'quick' else '14400'))
+
+            def out_of_time(_sig, _frm):
+                import multiprocessing
+                import subprocess
+                print(f'MACHINERY-ERROR: {args.pid} {args.tier} did not finish within {budget}s', file=sys.stderr)
+                sys.stderr.flush()
+                for ch in multiprocessing.active_children():
+                    ch.kill()
+                subprocess.run(['pkill', '-KILL', '-P', str(os.getpid())], check=False)
+                os._exit(2)
+            signal.signal(signal.SIGALRM, out_of_time)
+            signal.alarm(budget)
             modname, fn = REGISTRY[args.pid]
             mod = importlib.import_module(modname)
             return getattr(mod, fn)(args.pid, args.tier, seed)
